@@ -38,6 +38,26 @@ type c10Call struct {
 	Entry string `json:"entry"`
 	Data  int    `json:"data"` // 0 nil, 1 string, 2 map, 3 struct with embedded pointer, 4 same with a nil embedded pointer
 	Vars  int    `json:"vars"` // 0 nil VarMap, 1 VarMap with values
+	// >0: the io.Writer accepts this many bytes and then fails every write
+	WriterFailsAfter int `json:"writer_fails_after,omitempty"`
+}
+
+type c10FaultyWriter struct {
+	buf   []byte
+	limit int
+}
+
+func (w *c10FaultyWriter) Write(p []byte) (int, error) {
+	room := w.limit - len(w.buf)
+	if room <= 0 {
+		return 0, fmt.Errorf("injected write failure")
+	}
+	if len(p) > room {
+		w.buf = append(w.buf, p[:room]...)
+		return room, fmt.Errorf("injected short write")
+	}
+	w.buf = append(w.buf, p...)
+	return len(p), nil
 }
 
 type c10Case struct {
@@ -59,7 +79,7 @@ func genC10(t *rapid.T) c10Case {
 	n := rapid.IntRange(3, 8).Draw(t, "ntemplates")
 	for i := 0; i < n; i++ {
 		path := fmt.Sprintf("/t%d.jet", i)
-		kind := rapid.SampledFrom([]string{"ordinary", "failing", "failing", "probing", "probing", "embprobe"}).Draw(t, "kind")
+		kind := rapid.SampledFrom([]string{"ordinary", "failing", "failing", "probing", "probing", "embprobe", "returning", "nested-ranges"}).Draw(t, "kind")
 		var body []*mj.Node
 		rt := mj.Print(mj.Call("rtprobe"))
 		switch kind {
@@ -79,6 +99,13 @@ func genC10(t *rapid.T) c10Case {
 				inner = []*mj.Node{{K: "try", Body: g.path(1, inner), HasCatch: true, Catch: []*mj.Node{mj.Text("(caught)")}}}
 			}
 			body = g.path(depth, inner)
+		case "returning":
+			// a {{return}} inside a range: the loop ends early (pooled cursors must survive that)
+			sub := []string{"xs", "m1", "sarr"}[rapid.IntRange(0, 2).Draw(t, "retsubject")]
+			body = []*mj.Node{{K: "range", E: mj.Var(sub), Body: []*mj.Node{mj.Text("r"), mj.If(mj.Bool(true), []*mj.Node{{K: "return", E: mj.Num(1)}}, nil)}}, mj.Text("after")}
+		case "nested-ranges":
+			sub := []string{"xs", "m1", "sarr"}[rapid.IntRange(0, 2).Draw(t, "nestsubject")]
+			body = []*mj.Node{{K: "range", Names: []string{"ka", "va"}, Decl: true, E: mj.Var(sub), Body: []*mj.Node{mj.Text("["), mj.Print(mj.Var("va")), {K: "range", Names: []string{"kb", "vb"}, Decl: true, E: mj.Var(sub), Body: []*mj.Node{mj.Print(mj.Var("vb")), mj.Text(",")}}, mj.Text("]")}}}
 		case "embprobe":
 			// a field promoted through an embedded pointer: value, or an error when the pointer is nil
 			body = []*mj.Node{mj.Text("[emb:"), mj.Print(mj.Field("PName")), mj.Text("|"), mj.Print(mj.Field("Name")), mj.Text("]")}
@@ -99,12 +126,18 @@ func genC10(t *rapid.T) c10Case {
 		c.Kinds = append(c.Kinds, kind)
 	}
 	failVars(g.p)
+	failFiles(g.p)
+	g.p.Vars["xs"] = mj.RInts(1, 2, 3)
+	g.p.Vars["m1"] = mj.Recipe{T: "map[string]int", Keys: []string{"only"}, Is: []int64{7}}
+	g.p.Vars["sarr"] = mj.Recipe{T: "sarray", Ss: []string{"p", "q"}}
 	ncalls := rapid.IntRange(2, 15).Draw(t, "ncalls")
 	for i := 0; i < ncalls; i++ {
 		c.Calls = append(c.Calls, c10Call{
 			Entry: fmt.Sprintf("/t%d.jet", rapid.IntRange(0, n-1).Draw(t, "entry")),
 			Data:  rapid.IntRange(0, 4).Draw(t, "data"),
 			Vars:  rapid.IntRange(0, 1).Draw(t, "vars"),
+			// sometimes the destination fails after a few bytes (a connection that breaks mid-response)
+			WriterFailsAfter: []int{0, 0, 0, 0, 1, 7, 30}[rapid.IntRange(0, 6).Draw(t, "writerFault")],
 		})
 	}
 	src := mj.NewPrinter().Sources(g.p)
@@ -229,6 +262,20 @@ func judgeC10(c c10Case) (v core.Verdict) {
 			vars = jet.VarMap{}
 			vars.Set("uservar", "UV")
 		}
+		if call.WriterFailsAfter > 0 {
+			w := &c10FaultyWriter{limit: call.WriterFailsAfter}
+			var o jetrun.Outcome
+			func() {
+				defer func() {
+					if r := recover(); r != nil {
+						o.Panicked, o.PanicVal = true, fmt.Sprint(r)
+					}
+					o.Out = string(w.buf)
+				}()
+				o.Err = tpls[call.Entry].Execute(w, vars, data)
+			}()
+			return o
+		}
 		return jetrun.Exec(tpls[call.Entry], vars, data)
 	}
 	// expectations: every call on fresh pools
@@ -322,7 +369,7 @@ func judgeC10(c c10Case) (v core.Verdict) {
 	}
 	// second opinion: the reference interpreter, where it is defined
 	for i, call := range c.Calls {
-		if want[i].Err != nil || want[i].Panicked || call.Vars == 1 || call.Data >= 3 {
+		if want[i].Err != nil || want[i].Panicked || call.Vars == 1 || call.Data >= 3 || call.WriterFailsAfter > 0 {
 			continue
 		}
 		p := *c.Prog
